@@ -1170,6 +1170,26 @@ func (ck *checker) lateBranch(op Op, doEdit func(r int, snap bool, sz int) error
 		}
 		return nil
 	}
+	if op.D < 6 {
+		// most of the time the replicas first converge (reliable delivery + one anti-entropy
+		// round), so that b's late change attaches on a and the third replica ends up on S
+		if err := s.Drain(5000); err != nil {
+			return err
+		}
+		for x := 0; x < n; x++ {
+			for y := 0; y < n; y++ {
+				if x != y && s.Replicas[x].Tree != nil && s.Replicas[y].Tree != nil {
+					if err := s.SyncWithPeer(x, y); err != nil {
+						return err
+					}
+					if err := s.Drain(5000); err != nil {
+						return err
+					}
+				}
+			}
+		}
+		ck.observeRoots()
+	}
 	mark := len(s.InFlight)
 	if err := doEdit(b, false, size(1)); err != nil {
 		return err
@@ -1196,6 +1216,31 @@ func (ck *checker) lateBranch(op Op, doEdit func(r int, snap bool, sz int) error
 		}
 		if err := step(m, fate); err != nil {
 			return err
+		}
+	}
+	// a third replica that could not attach a's changes directly catches up with a reliable
+	// exchange (request, stream, counter-request), so that it sits on S without x
+	for c := 0; c < n; c++ {
+		if c == a || c == b || s.Replicas[c].Tree == nil {
+			continue
+		}
+		m0 := len(s.InFlight)
+		if err := s.SyncWithPeer(c, a); err != nil {
+			return err
+		}
+		for k := 0; k < 8 && len(s.InFlight) > m0; k++ {
+			fate := treesim.Deliver
+			if m := s.InFlight[m0]; m.To == b || m.From == b {
+				fate = treesim.Drop
+			}
+			if err := s.Step(m0, fate, 0); err != nil {
+				return err
+			}
+		}
+		for len(s.InFlight) > m0 {
+			if err := s.Step(len(s.InFlight)-1, treesim.Drop, 0); err != nil {
+				return err
+			}
 		}
 	}
 	mark = len(s.InFlight)
@@ -1227,6 +1272,11 @@ func (ck *checker) lateBranch(op Op, doEdit func(r int, snap bool, sz int) error
 		q = b
 	}
 	Q := s.Replicas[q]
+	if os.Getenv("VERIF_DEBUG") == "3" {
+		rp, rh, _ := treePathHeads(R.Tree)
+		qp, qh, _ := treePathHeads(Q.Tree)
+		fmt.Printf("lateb n=%d a=%d b=%d q=%d D=%d rootsSeen=%v Rpath=%s Rheads=%s Qpath=%s Qheads=%s\n", n, a, b, q, op.D, sh(ck.rootsSeen[a]), sh(rp), sh(rh), sh(qp), sh(qh))
+	}
 	if op.D%2 == 1 {
 		return ck.probeE2EPair(R, Q, Op{K: "probe-e2e", D: 0})
 	}
